@@ -105,7 +105,7 @@ class Sfx(util.BaseSection):
         id = 0
 
         for line in lines:
-            if len(line) != 169:
+            if len(line.rstrip()) != 168:
                 continue
             editor_mode = int(line[0:2], 16)
             note_duration = int(line[2:4], 16)
